@@ -37,7 +37,10 @@ def main():
     n = 0
     failing = []
     # value-dependent families
-    for fi, (anns_list, probes) in enumerate(GD.families("quick")):
+    for fi, spec in enumerate(GD.families("quick")):
+        anns_list, probes = spec[0], spec[1]
+        if len(spec) > 2:
+            continue  # families of methods with self: per-instance verification of the emitted text, and native/c17_classes.py
         ov = Ovld(name=f"fam{fi}")
         for hi, anns in enumerate(anns_list):
             ov.register(guarded(f"h{hi}", anns))
